@@ -371,6 +371,32 @@ theorem marshal_roundtrip_request (v t : Nat) (hv : v < 2 ^ 256) (ht : t < 256) 
 example : requestId (natBE 32 (2 ^ 256 - 1)) = 2 ^ 256 - 1 :=
   (marshal_roundtrip_request (2 ^ 256 - 1) 2 (by decide) (by decide)).1
 
+/-! ### commit-reveal glue -/
+
+/-- **commit matches reveal**: the commitment the node sends for secret `sec` is the hash of exactly the 32-byte
+ABI word that the later `reveal(cid, sec)` transaction carries (what the contract re-hashes), for every
+secret below 2^256 — leading zero bytes included — and every hash function. -/
+theorem commit_matches_reveal (hash : Bytes → Bytes) (sec : Nat) :
+    crCommitment hash sec = hash (abiWord sec) ∧ (abiWord sec).length = 32 ∧
+    (sec < 2 ^ 256 → beNat (abiWord sec) = sec) := by
+  refine ⟨rfl, natBE_len 32 sec, fun h => ?_⟩
+  have h256 : (256 : Nat) ^ 32 = 2 ^ 256 := by norm_num
+  exact beNat_natBE_of_lt 32 sec (by omega)
+
+/-- … whereas `big.Int.Bytes()` of a secret below 2^248 is shorter than that word: hashing it (the seeded
+change `h.Write(sec.Bytes())`) commits to a different byte string than the one revealed. -/
+theorem unpadded_secret_is_not_the_reveal_word (sec : Nat) (h : sec < 2 ^ 248) :
+    natBytes sec ≠ abiWord sec := by
+  intro e
+  have h1 : (natBytes sec).length ≤ 31 := natBytes_length_le sec 31 (by
+    have : (256 : Nat) ^ 31 = 2 ^ 248 := by norm_num
+    omega)
+  have h2 : (abiWord sec).length = 32 := natBE_len 32 sec
+  rw [e] at h1
+  omega
+
+example : crCommitment (fun b => b) 1 = natBE 32 1 ∧ natBytes 1 = [1] := by decide
+
 /-! ### the same functions in the codec model of C11 (`Model/Codec.lean`)
 
 The marshalling theorems above are about `ReqLoop.toBigInt / decodePubKey / marshalG2`; C11's byte-level
@@ -532,6 +558,15 @@ theorem config_shape_matches_model :
        "if e.gasPrice != 0", "auth.GasPrice = big.NewInt(int64(e.gasPrice))", "auth.Context = ctx",
        "auth, err := bind.NewKeyedTransactorWithChainID(e.key.PrivateKey, e.chainID)", "auth.GasLimit = e.gasLimit",
        "if e.gasPrice != 0", "auth.GasPrice = big.NewInt(int64(e.gasPrice))", "auth.Context = ctx"] := by
+  decide
+
+/-- **regenerated: how `handleCR` builds the arguments of `Commit` and `Reveal`** — the secret `sec`, the
+commitment `keccak256(math.U256Bytes(sec))` (`u256Bytes`/`crCommitment` of the model: the padded 32-byte
+word, not `sec.Bytes()`), the same `cid` and the same `sec` in both calls, commit first. -/
+theorem handleCR_args_match_model :
+    handleCRArgs = ["sec, err := rand.Int(rand.Reader, randSeed)", "h := sha3.NewLegacyKeccak256()",
+      "h.Write(math.U256Bytes(sec))", "b := h.Sum(nil)", "hash := byte32(b)", "cid := cr.Cid",
+      "if err := d.chain.Commit(cid, *hash); err != nil", "if err := d.chain.Reveal(cid, sec); err != nil"] := by
   decide
 
 end Dos.Props.C19
